@@ -328,6 +328,7 @@ func runHist(h hist) (res result) {
 			blockedBefore := blockedSeen[si]
 			for pi, p := range h.Universe {
 				k := p.Key()
+				form := func(a rig.Attr) rig.Attr { return rig.ExportForm(l, s, pol, p, a) }
 				var loc []rig.Attr
 				if r := rg.Loc.Get(bio[pi]); r != nil {
 					for _, lp := range r.Paths() {
@@ -400,7 +401,7 @@ func runHist(h hist) (res result) {
 					got[ob.ID]++
 					if got[ob.ID] == 2 && !ob.Static {
 						disc(dk("duplicate", ob.ID), "duplicate", func() map[string]string {
-							return f("transform", rig.Transform(l, s, pol, p, h.Paths[ob.ID]), "tie", hasTie(h, pi, ob.ID))
+							return f("transform", rig.Transform(l, s, pol, p, h.Paths[ob.ID]), "tie", hasTie(h, pi, ob.ID, form))
 						}, ctx)
 					}
 					e, ok := want[ob.ID]
@@ -408,7 +409,7 @@ func runHist(h hist) (res result) {
 						switch w := why[ob.ID]; {
 						case w == "" && !inLoc[pi][ob.ID]:
 							disc(dk("stale", ob.ID), "stale", func() map[string]string {
-								return f("transform", rig.Transform(l, s, pol, p, h.Paths[ob.ID]), "tie", hasTie(h, pi, ob.ID))
+								return f("transform", rig.Transform(l, s, pol, p, h.Paths[ob.ID]), "tie", hasTie(h, pi, ob.ID, form))
 							},
 								func() string { return fmt.Sprintf("holds path %d which the Loc-RIB has withdrawn: %s", ob.ID, ctx()) })
 						case w == "":
@@ -418,7 +419,7 @@ func runHist(h hist) (res result) {
 								})
 						default:
 							disc(dk("extra", ob.ID), "extra:"+strings.SplitN(w, ":", 2)[0], func() map[string]string {
-								return f("transform", rig.Transform(l, s, pol, p, h.Paths[ob.ID]), "tie", hasTie(h, pi, ob.ID))
+								return f("transform", rig.Transform(l, s, pol, p, h.Paths[ob.ID]), "tie", hasTie(h, pi, ob.ID, form))
 							},
 								func() string { return fmt.Sprintf("holds path %d which must not be there (%s): %s", ob.ID, w, ctx()) })
 						}
@@ -443,7 +444,7 @@ func runHist(h hist) (res result) {
 					id := id
 					if got[id] == 0 {
 						disc(dk("missing", id), "missing", func() map[string]string {
-							return f("blocked_sibling", blockedSibling, "blocked_earlier", blockedBefore, "tie", hasTie(h, pi, id))
+							return f("blocked_sibling", blockedSibling, "blocked_earlier", blockedBefore, "tie", hasTie(h, pi, id, form))
 						},
 							func() string { return fmt.Sprintf("path %d is selected and admitted but absent: %s", id, ctx()) })
 					}
@@ -642,15 +643,16 @@ func selectKey(a rig.Attr) string {
 	return fmt.Sprint(a.Static, a.LocalPref, n, a.Origin, a.MED, a.EBGP, a.BGPID, a.OriginatorID, len(a.ClusterList), a.Source, a.NextHop)
 }
 
-// hasTie reports whether the history puts another path on prefix pi that bio-rd's comparison cannot tell from path id.
-func hasTie(h hist, pi int, id uint32) bool {
-	k := selectKey(h.Paths[id])
+// hasTie reports whether the history puts another path on prefix pi that bio-rd's comparison cannot tell from path id
+// once both are in the form the session exports them in (a policy that sets next hop / LOCAL_PREF makes more paths tie).
+func hasTie(h hist, pi int, id uint32, form func(rig.Attr) rig.Attr) bool {
+	k := selectKey(form(h.Paths[id]))
 	for _, o := range h.Ops {
 		if o.K == "attach" || o.Pfx != pi {
 			continue
 		}
 		for _, x := range []uint32{o.ID, o.New} {
-			if x != 0 && x != id && !h.Paths[x].Static && selectKey(h.Paths[x]) == k {
+			if x != 0 && x != id && !h.Paths[x].Static && selectKey(form(h.Paths[x])) == k {
 				return true
 			}
 		}
